@@ -109,12 +109,10 @@ Definition rename_univeff_a (fuel : nat) (m : renaming) (ue : muniveff) : result
     do ce <- rename_condeff_a fuel free (ue_ce ue);
     Ok {| ue_var := v; ue_ty := ue_ty ue; ue_ce := ce |}.
 
-Definition alpha_fuel : nat := 200.
-
-Definition change_signature_a (m : renaming) (a : maction) : result maction :=
-  do pre <- rename_pre_a alpha_fuel m (ma_pre a);
-  do conds <- mapM (rename_condeff_a alpha_fuel m) (ma_cond a);
-  do univs <- mapM (rename_univeff_a alpha_fuel m) (ma_univ a);
+Definition change_signature_fuel (fuel : nat) (m : renaming) (a : maction) : result maction :=
+  do pre <- rename_pre_a fuel m (ma_pre a);
+  do conds <- mapM (rename_condeff_a fuel m) (ma_cond a);
+  do univs <- mapM (rename_univeff_a fuel m) (ma_univ a);
   Ok {| ma_name := ma_name a;
         ma_sig := rebuild m (ma_sig a);
         ma_pre := pre;
@@ -122,3 +120,8 @@ Definition change_signature_a (m : renaming) (a : maction) : result maction :=
         ma_num := map (rename_numexp m) (ma_num a);
         ma_cond := conds;
         ma_univ := univs |}.
+
+(* two levels of fuel per nesting level of the conditions; 200 is far beyond what the domain parser accepts within its own
+   fuel, and running out is reported (Err EFuel), never silently truncated *)
+Definition alpha_fuel : nat := 200.
+Definition change_signature_a (m : renaming) (a : maction) : result maction := change_signature_fuel alpha_fuel m a.
